@@ -34,6 +34,9 @@ InterpThms.vos InterpThms.vok InterpThms.required_vos: InterpThms.v NumSig.vos I
 ShiftThms.vo ShiftThms.glob ShiftThms.v.beautified ShiftThms.required_vo: ShiftThms.v NumSig.vo Tridiag.vo Interp.vo Reservoir.vo InterpThms.vo
 ShiftThms.vio: ShiftThms.v NumSig.vio Tridiag.vio Interp.vio Reservoir.vio InterpThms.vio
 ShiftThms.vos ShiftThms.vok ShiftThms.required_vos: ShiftThms.v NumSig.vos Tridiag.vos Interp.vos Reservoir.vos InterpThms.vos
+FlowPropsThms.vo FlowPropsThms.glob FlowPropsThms.v.beautified FlowPropsThms.required_vo: FlowPropsThms.v NumSig.vo Tridiag.vo Interp.vo Reservoir.vo ReservoirThms.vo InterpThms.vo
+FlowPropsThms.vio: FlowPropsThms.v NumSig.vio Tridiag.vio Interp.vio Reservoir.vio ReservoirThms.vio InterpThms.vio
+FlowPropsThms.vos FlowPropsThms.vok FlowPropsThms.required_vos: FlowPropsThms.v NumSig.vos Tridiag.vos Interp.vos Reservoir.vos ReservoirThms.vos InterpThms.vos
 ObjectSM.vo ObjectSM.glob ObjectSM.v.beautified ObjectSM.required_vo: ObjectSM.v 
 ObjectSM.vio: ObjectSM.v 
 ObjectSM.vos ObjectSM.vok ObjectSM.required_vos: ObjectSM.v 
@@ -46,3 +49,6 @@ DAK_spec.vos DAK_spec.vok DAK_spec.required_vos: DAK_spec.v
 Trapz.vo Trapz.glob Trapz.v.beautified Trapz.required_vo: Trapz.v PyPrelude.vo
 Trapz.vio: Trapz.v PyPrelude.vio
 Trapz.vos Trapz.vok Trapz.required_vos: Trapz.v PyPrelude.vos
+Multiphase_spec.vo Multiphase_spec.glob Multiphase_spec.v.beautified Multiphase_spec.required_vo: Multiphase_spec.v 
+Multiphase_spec.vio: Multiphase_spec.v 
+Multiphase_spec.vos Multiphase_spec.vok Multiphase_spec.required_vos: Multiphase_spec.v 
